@@ -4,7 +4,8 @@
     fragswarm, mbapp, the five p2pmux kinds and p2pkeswarm) for every stack of the case space and every
     boundary size: the coded design is honest within the bounds.
  2. TLC (StackGen) enumerates the stacks (depth <= 2, thorough 3; inner MTU in {64,100,576,1280,65536} plus {25,26} for single layers (thorough: two);
-    mux channel ids of every header size) with BoundarySizes: 0, 1, MTU-1, MTU, MTU+1 and the sizes that
+    mux channel ids of every header size; varint / string muxes with 2-3 channels of different header lengths on
+    one mux, every order and kind of first use) with BoundarySizes: 0, 1, MTU-1, MTU, MTU+1 and the sizes that
     straddle every layer's part-count and header boundary.
  3. harness/cmd/stackreplay builds both endpoints of every stack from the REAL layers over the real vswarm
     (and over netsim in the thorough tier), reads MTU() from the real top swarm and performs a Tell (and an
@@ -44,8 +45,12 @@ LAYER_NAME = {"frag": "fragswarm", "mbapp": "mbapp", "str": "stringmux", "var": 
 
 TIERS = {
     # StackGen_small*: base MTUs 25 / 26, where mbapp's 16-bit part count caps MTU() at 65535 / 131070 bytes
-    "quick": dict(mc="Stack_quick.cfg", gen=["StackGen_quick.cfg", "StackGen_small.cfg"], cap=300000, par=8),
-    "thorough": dict(mc="Stack_thorough.cfg", gen=["StackGen_thorough_d2.cfg", "StackGen_thorough_d3.cfg", "StackGen_small_d2.cfg"],
+    # StackGen_sib*: varint / string mux layers with 2 or 3 channels of different header lengths on the SAME mux, every
+    # channel as the one under test, every order and kind of first use (state shared between the channels of a mux)
+    "quick": dict(mc=["Stack_quick.cfg", "Stack_sib.cfg"], gen=["StackGen_quick.cfg", "StackGen_small.cfg", "StackGen_sib.cfg"],
+                  cap=300000, par=8),
+    "thorough": dict(mc=["Stack_thorough.cfg", "Stack_sib.cfg"],
+                     gen=["StackGen_thorough_d2.cfg", "StackGen_thorough_d3.cfg", "StackGen_small_d2.cfg", "StackGen_sib_d2.cfg"],
                      cap=5300000, par=10),
 }
 
@@ -58,8 +63,14 @@ def sub_sig(c, i):
     return (c["base"], c["inner"], json.dumps(c["layers"][i:], sort_keys=True))
 
 
+def layer_name(x):
+    if x.get("chans"):
+        return "%s[%d channels,%s-first=%s]" % (LAYER_NAME[x["k"]], len(x["chans"]), x["use"], "".join(str(i) for i in x["ord"]))
+    return LAYER_NAME[x["k"]]
+
+
 def stack_name(c):
-    return ">".join(LAYER_NAME[x["k"]] for x in c["layers"]) + (">" if c["layers"] else "") + c["base"]
+    return ">".join(layer_name(x) for x in c["layers"]) + (">" if c["layers"] else "") + c["base"]
 
 
 def run_pipeline(tier, only=None):
@@ -67,19 +78,19 @@ def run_pipeline(tier, only=None):
     stats = dict(mc={})
     d = core.scratch("stack")
     binp = core.go_build("stackreplay")
-    ex = ThreadPoolExecutor(max_workers=4)
+    ex = ThreadPoolExecutor(max_workers=6)
 
-    def mc():
-        res = core.tlc("MC_Stack", T["mc"], workers=6, timeout=1500, label="mc", heap="6g")
-        core.tlc_ok_or_inconclusive(res, "MC Stack")
-        stats["mc"][T["mc"][:-4]] = dict(states=res.distinct, transitions=res.generated, wall=round(res.wall, 1))
+    def mc(cfg):
+        res = core.tlc("MC_Stack", cfg, workers=6, timeout=1500, label="mc-" + cfg[:-4], heap="6g")
+        core.tlc_ok_or_inconclusive(res, "MC Stack " + cfg)
+        stats["mc"][cfg[:-4]] = dict(states=res.distinct, transitions=res.generated, wall=round(res.wall, 1))
 
     def gen(cfg):
         res = core.tlc("StackGen", cfg, workers=1, timeout=1500, label="gen-" + cfg[:-4])
         core.tlc_ok_or_inconclusive(res, "StackGen " + cfg)
         return [x[1] for x in res.printed("CASE")]
 
-    side = [] if only else [ex.submit(mc)]
+    side = [] if only else [ex.submit(mc, cfg) for cfg in T["mc"]]
     if only:
         cases = only
     else:
